@@ -219,7 +219,7 @@ func startWorker(bin, id string) (*worker, error) {
 	cmd := exec.Command(bin, "worker", id)
 	cmd.ExtraFiles = []*os.File{pw}
 	cmd.Env = append(os.Environ(), "GOTRACEBACK=all", "GOMEMLIMIT=3GiB")
-	cmd.SysProcAttr = &syscall.SysProcAttr{Setpgid: true} // so that a kill reaches the worker's own children
+	cmd.SysProcAttr = &syscall.SysProcAttr{Setpgid: true, Pdeathsig: syscall.SIGKILL} // a kill reaches the worker's own children; no orphans if the master is killed
 	devnull, _ := os.OpenFile(os.DevNull, os.O_WRONLY, 0)
 	cmd.Stdout = devnull
 	tb := &tailBuf{}
